@@ -319,7 +319,8 @@ def context_multi(i1: int, j1: int, i2: int, j2: int, v0: int, v1: int, v2: int,
     return cfg == before
 
 
-BAD_DEVICES = ["cuda:9", "tpu", "gpu", "mps", "cuda", "", "CUDA:1", "cuda:x", "gpu:0"]
+BAD_DEVICES = ["cuda:9", "tpu", "gpu", "mps", "cuda", "", "CUDA:1", "cuda:x", "gpu:0", "xcpuz", "not-a-cpu-device", "cpu:x", "cpus",
+               "cpu:", "cpu cpu"]
 
 
 def _try_device(dev, prev_cpu):
@@ -364,15 +365,42 @@ def bad_device_str(s: str, prev_cpu: bool) -> bool:
     return _try_device(s, prev_cpu)
 
 
+def bad_device_cpu_like(side: int, c: str, prev_cpu: bool) -> bool:
+    """a string that merely contains 'cpu' (one more character before or after it) is malformed
+
+    pre: 0 <= side <= 1 and len(c) == 1
+    pre: _fix("side", side)
+    post: __return__ == True
+    """
+    return _try_device(c + "cpu" if side == 0 else "cpu" + c, prev_cpu)
+
+
+def bad_device_cpu_like__reach(side: int, c: str, prev_cpu: bool) -> bool:
+    """
+    pre: 0 <= side <= 1 and len(c) == 1
+    post: __return__ == False
+    """
+    return _try_device(c + "cpu" if side == 0 else "cpu" + c, prev_cpu)
+
+
 def good_device(sel: int) -> bool:
     """cpu spellings are accepted and stored as 'cpu'
 
-    pre: 0 <= sel < 3
+    pre: 0 <= sel < 5
     post: __return__ == True
     """
     cfg = {}
-    qc.set({"device": ["cpu", "CPU", "cpu:0"][sel]}, config=cfg)
+    qc.set({"device": ["cpu", "CPU", "cpu:0", "Cpu:12", "cpu:7"][sel]}, config=cfg)
     return qc.get("device", config=cfg) == "cpu"
 
 
 # Replay on the real code: the harnesses use no stub, so calling them concretely is the replay.
+
+
+def bad_device_cpu_index(c: str, prev_cpu: bool) -> bool:
+    """'cpu:<c>' with a single character c that is not an ASCII digit is malformed
+
+    pre: len(c) == 1 and c not in "0123456789"
+    post: __return__ == True
+    """
+    return _try_device("cpu:" + c, prev_cpu)
